@@ -98,17 +98,27 @@ FA_ID = fa_tr(0, 0)
 
 
 def frac_sqrt(q: F):
-    """exact square root of a non-negative rational or None"""
+    """exact *dyadic* square root of a non-negative rational or None (so that the double sqrt is exact)"""
     if q < 0:
         return None
     n, d = q.numerator, q.denominator
     rn, rd = isqrt(n), isqrt(d)
-    if rn * rn == n and rd * rd == d:
+    if rn * rn == n and rd * rd == d and rd & (rd - 1) == 0:
         return F(rn, rd)
     return None
 
 
 # ------------------------------------------------------------------ generators
+def near_delta(rng) -> F:
+    """signed offsets that sit just beside a decision boundary (integer, half, tolerance)"""
+    d = rng.choice([F(0), F(1, 10**6), F(1, 10**9), F(1, 10**10), F(1, 10**11), F(2) ** -33, F(2) ** -40, F(1, 10**8)])
+    return d * rng.choice([-1, 1])
+
+
+HUGE = [2**31 - 1, 2**31, 2**31 + 1, 2**32 + 5, 2**53 - 3, 2**53 - 1, 2**53, 2**53 + 1, 2**53 + 3, 2**63 - 1, 2**63,
+        2**64, 2**64 + 1, 2**100, 2**100 + 7, 10**30 + 1]
+
+
 def pow2(rng, lo, hi):
     return 2.0 ** rng.randint(lo, hi)
 
@@ -192,6 +202,13 @@ def gen_gbox_float(rng, GB, Affine):
         tx, ty = rng.uniform(-2e7, 2e7), rng.uniform(-2e7, 2e7)
     A = Affine.translation(tx, ty) * L
     shape = gen_shape(rng, rng.choice([64, 64, 5000]))
+    if rng.random() < 0.04:
+        # extreme but non-overflowing magnitudes (det and every product stay finite and non-zero)
+        u = rng.randint(-140, 140)
+        v = rng.randint(-150, 150)
+        A = Affine.translation(rng.choice([-1, 1]) * 10.0**v, rng.choice([-1, 1, 0]) * 10.0**v) * \
+            Affine.scale(rng.choice([-1, 1]) * 10.0**u, rng.choice([-1, 1]) * 10.0**u * rng.uniform(0.5, 2))
+        kind = "extreme"
     return GB.GeoBox(shape, A, CRS_TAGS[rng.choice([0, 1, 2, 3])]), kind
 
 
@@ -321,9 +338,10 @@ def _check_base_views(cx: Ctx, g, TNI, tag="base"):
         else:
             (ylab, xlab) = [co[d].values for d in g.dimensions]
             ok = len(xlab) == max(nx, 0) and len(ylab) == max(ny, 0)
-            for i in range(len(xlab)):
+            pick = lambda n: range(n) if n <= 80 else list(range(40)) + list(range(n - 40, n))  # noqa: E731
+            for i in pick(len(xlab)):
                 ok = ok and cx.close(xlab[i], A[0] * (F(i) + F(1, 2)) + A[2], sc)
-            for j in range(len(ylab)):
+            for j in pick(len(ylab)):
                 ok = ok and cx.close(ylab[j], A[4] * (F(j) + F(1, 2)) + A[5], sc)
             R.oracle(ok, "coords-not-centres", case, f"labels x={list(xlab)[:4]} y={list(ylab)[:4]}")
     except ValueError:
@@ -357,9 +375,10 @@ def norm_index_numpy(s, n):
     b = n if s.stop is None else s.stop
     if a > n or b > n:  # code does not clamp positive bounds; numpy does
         return None
-    if len(r) == 0:
+    cnt = max(0, r.stop - r.start)  # len(range) overflows for huge axes
+    if cnt == 0:
         return None
-    return (r.start, len(r))
+    return (r.start, cnt)
 
 
 class Ops:
@@ -503,6 +522,11 @@ class Ops:
                 f = rng.choice([0.5, 2.0, 4.0, 0.25, 8.0, 3.0, 1.5, 0.75, 5.0, 2.5, 1.0, 16.0, 64.0, -2.0, 0.0, 6.0, 7.0, 1.25])
             else:
                 f = rng.choice([rng.uniform(0.05, 40), 1 / 3, 0.1, 3.0, 10 / 3, 1.1, 7.0, 2.0])
+                if rng.random() < 0.5 and max(ny, nx) > 0:
+                    # s / f just beside an integer: k +- delta
+                    s_ = rng.choice([v for v in (ny, nx) if v > 0])
+                    k_ = rng.randint(1, 3 * s_)
+                    f = float(F(s_) / (F(k_) + near_delta(rng)))
 
             def contract(cx, g, g2, args):
                 if f <= 0:
@@ -555,17 +579,25 @@ class Ops:
                     n = 0
             else:
                 n = rng.randint(1, 3 * max(nmax, 1)) if rng.random() < 0.97 else rng.choice([0, -3])
+                if not exact and rng.random() < 0.3 and nmax > 0:
+                    # float target: s*n/nmax just beside an integer on the shorter side
+                    s_ = max(1, min(ny, nx))
+                    n = float((F(rng.randint(1, 2 * s_)) + near_delta(rng)) * nmax / s_)
 
             def contract(cx, g, g2, args):
                 if n <= 0 or nmax <= 0:
                     return
                 got = tuple(map(int, g2.shape))
-                cx.R.oracle(max(got) == n, "zoom-to-int-longest-side", case_of(op, g, args),
-                            f"GeoBox{(ny, nx)}.zoom_to({n}) has shape {got}: longest side {max(got)} != {n}")
-                want = tuple(max(1, math.ceil(F(s * n, nmax))) for s in (ny, nx))
-                cx.R.oracle(got == want, "zoom-to-int-shape", case_of(op, g, args), f"zoom_to({n}) of {(ny, nx)} gave {got}, want {want}")
-                check_contract(cx, "zton", g, g2, args, T=fa_sc(F(nmax, n), F(nmax, n)))
-            return str(n), (lambda: g.zoom_to(n)), contract
+                if isinstance(n, int):
+                    cx.R.oracle(max(got) == n, "zoom-to-int-longest-side", case_of(op, g, args),
+                                f"GeoBox{(ny, nx)}.zoom_to({n}) has shape {got}: longest side {max(got)} != {n}")
+                qs = [F(s) * F(n) / nmax for s in (ny, nx)]
+                want = tuple(max(1, math.ceil(q)) for q in qs)
+                near = [(not isinstance(n, int)) and abs(q - round(q)) <= F(1, 10**12) * max(q, 1) for q in qs]
+                cx.R.oracle(all(a == b or (nr and abs(a - b) <= 1) for a, b, nr in zip(got, want, near)), "zoom-to-int-shape",
+                            case_of(op, g, args), f"zoom_to({n}) of {(ny, nx)} gave {got}, want {want}")
+                check_contract(cx, "zton", g, g2, args, T=fa_sc(F(nmax) / F(n), F(nmax) / F(n)))
+            return (str(n) if isinstance(n, int) else frac_s(n)), (lambda: g.zoom_to(n)), contract
         if op == "ztor":
             if exact:
                 r = rng.choice([-1, 1]) * pow2(rng, -10, 10)
@@ -576,6 +608,15 @@ class Ops:
                 base = abs(g.resolution.x)
                 r = rng.choice([-1, 1]) * base * rng.choice([rng.uniform(0.2, 8), 2.0, 3.0, 0.5, 1.0])
                 r2 = rng.choice([None, None, -r * rng.uniform(0.5, 2)])
+                if rng.random() < 0.5:
+                    # span / res just beside an integer or beside the 0.01 px tolerance
+                    bb_ = g.boundingbox
+                    span = F(bb_.right) - F(bb_.left)
+                    if span > 0:
+                        k_ = rng.randint(1, 40)
+                        off_ = rng.choice([F(0), F(0.01), F(1, 2), F(1) - F(0.01)])
+                        r = rng.choice([-1, 1]) * float(span / (F(k_) + off_ + near_delta(rng)))
+                        r2 = None
             if r2 is None:
                 rx, ry = r, -r
                 arg = r
@@ -605,6 +646,24 @@ class Ops:
                     ok = ok and lo2 <= lo + slack and hi2 >= hi - slack
                     ok = ok and ((hi2 - lo2) - (hi - lo) < abs(rr) + slack or (hi - lo) < abs(rr))
                 cx.R.oracle(ok, "ztor-does-not-cover", case, f"zoom_to(resolution) bbox {g2.boundingbox} vs original {g.boundingbox}")
+                # two-sided: exact re-computation of the tight snap from the (real) bounding box of the parent
+                bb = [F(v) for v in g.boundingbox.bbox]
+                want, amb = [], False
+                for (lo, hi), rr in (((bb[0], bb[2]), F(rx)), ((bb[1], bb[3]), F(ry))):
+                    q = (hi - lo) / abs(rr)
+                    fr = q - math.floor(q)
+                    n_ = math.floor(q) if fr < F(0.01) else math.ceil(q)
+                    # the double quotient is within 1e-15 relative of q: undecidable within that distance of a threshold
+                    eps = F(1, 10**12) * max(q, 1)
+                    amb = amb or abs(fr - F(0.01)) <= eps or (fr != 0 and (fr <= eps or 1 - fr <= eps))
+                    want.append((max(1, n_), lo if rr > 0 else hi))
+                got = ((nx2, A2[2]), (ny2, A2[5]))
+                cx.R.oracle(amb or all(g_[0] == w_[0] for g_, w_ in zip(got, want)), "ztor-shape", case,
+                            f"zoom_to(resolution={rx, ry}) of bbox {tuple(g.boundingbox.bbox)} has shape {(ny2, nx2)}, "
+                            f"tight snap with tol 0.01 gives {(want[1][0], want[0][0])}")
+                cx.R.oracle(all(g_[1] == w_[1] for g_, w_ in zip(got, want)), "ztor-offset", case,
+                            f"zoom_to(resolution) origin {(float(A2[2]), float(A2[5]))} is not the bbox corner "
+                            f"{(float(want[0][1]), float(want[1][1]))}")
             return f"{frac_s(rx)} {frac_s(ry)}", (lambda: g.zoom_to(resolution=arg)), contract
         if op == "sdown":
             k = rng.choice([2, 3, 4, 5, 7, 8, 16, 2, 1, 0])
@@ -630,6 +689,11 @@ class Ops:
             else:
                 xb = rng.uniform(-1, 6) * px
                 yb = rng.choice([None, rng.uniform(-1, 6) * px])
+                if rng.random() < 0.5:
+                    # (buffer - 0.1 res)/res just beside an integer
+                    rr_ = g.resolution
+                    xb = float((F(rng.randint(0, 6)) + F(0.1) + near_delta(rng)) * abs(F(rr_.x)))
+                    yb = rng.choice([None, float((F(rng.randint(0, 6)) + F(0.1) + near_delta(rng)) * abs(F(rr_.y)))])
             ybv = xb if yb is None else yb
 
             def contract(cx, g, g2, args):
@@ -649,7 +713,7 @@ class Ops:
                     rxa, rya = abs(F(rr.x)), abs(F(rr.y))
                 ok = True
                 for b, buf, r in ((bx, F(xb), rxa), (by, F(ybv), rya)):
-                    sl = F(0) if cx.exact else F(1, 10**9) * (abs(buf) + r)
+                    sl = F(0) if cx.exact else F(1, 10**12) * (abs(buf) + r)
                     lo = buf - F(0.1) * r  # documented: up to 0.1 px may be left uncovered
                     ok = ok and b * r >= lo - sl and (b - 1) * r < lo + sl
                 cx.R.oracle(ok, "buf-amount", case, f"buffered({xb},{yb}) grew by {(bx, by)} px of size {(float(rxa), float(rya))}")
@@ -751,14 +815,15 @@ def run(R: Run):
     cxE, cxF = Ctx(R, True), Ctx(R, False)
 
     # ---------- exact stream: random geoboxes x every op
-    for _ in range(R.pick(500, 5000)):
+    for _ in range(R.pick(1200, 9000)):
         g, cls = gen_gbox_exact(rng, GB, Affine, allow_zero=True)
         base_view_lines(R, ops, g, cls)
         check_base_views(cxE, g, TNI)
         for op in ALL_OPS:
             g2 = run_op(R, ops, cxE, op, g, True, cls)
             # views of a derived geobox + a second op on it (compositions of views)
-            if g2 is not None and rng.random() < 0.08 and not op.startswith("S:") and min(g2.shape) >= 0:
+            if g2 is not None and rng.random() < 0.08 and not op.startswith("S:") and min(g2.shape) >= 0 \
+                    and max(g2.shape) <= 512:
                 if all(abs(F(v).numerator).bit_length() <= 40 for v in tuple(g2._affine)[:6]):
                     base_view_lines(R, ops, g2, cls + "+derived")
                     check_base_views(cxE, g2, TNI)
@@ -776,7 +841,9 @@ def run(R: Run):
             except TNI:
                 raise ValueError("not invertible")
         R.corr(f"c02 w2p {gs} 1 2", fw, sig="w2p|singular")
-        R.corr(f"c02 res {gs} 1 1", lambda: f"{frac_s(g.resolution.x)} {frac_s(g.resolution.y)}", sig="res|singular")
+        if abs(A.b) < 1e-10 and abs(A.d) < 1e-10:
+            # (for a singular *rotated* matrix cholesky fails in exact arithmetic; in doubles it depends on rounding)
+            R.corr(f"c02 res {gs} 1 1", lambda: f"{frac_s(g.resolution.x)} {frac_s(g.resolution.y)}", sig="res|singular")
         R.corr(f"c02 bbox {gs}", lambda: " ".join(frac_s(v) for v in g.boundingbox.bbox), sig="bbox|singular")
         check_base_views(cxE, g, TNI)
 
@@ -870,23 +937,61 @@ def run(R: Run):
         for r in (1.0, -1.0, 0.5, 2.0):
             R.corr(f"c02 ztor {enc_gb(g)} {frac_s(r)} {frac_s(-r)}", lambda: enc_gb(g.zoom_to(resolution=r)), sig="ztor|tol-edge")
 
+    # ---------- exact stream: HUGE integer shapes / parameters for the integer-valued helpers (shape only;
+    # a float detour such as int(ceil(x / k)) is invisible below 2**53)
+    for _ in range(R.pick(400, 4000)):
+        ny, nx = (rng.choice(HUGE) + rng.randint(-3, 3) for _ in range(2))
+        if rng.random() < 0.3:
+            nx = rng.randint(1, 64)
+        g = GB.GeoBox((ny, nx), A0, CRS_TAGS[rng.choice([0, 1, 2])])
+        gs = enc_gb(g)
+        big = lambda: rng.choice(HUGE) + rng.randint(-3, 3)  # noqa: E731
+        al = rng.choice([2, 3, 7, 16, 2**32 + 1, 2**40, 2**53 + 1, 2**62, big()])
+        r1 = []
+        R.corr(f"c02 S:padwh {gs} {al} N", lambda: (r1.append(g.pad_wh(al)), f"{r1[0].shape[0]} {r1[0].shape[1]}")[1], sig="padwh|huge")
+        if r1:
+            check_contract(cxE, "padwh", g, r1[0], f"{al} N", shape=(-(-ny // al) * al, -(-nx // al) * al))
+        k = rng.choice([2, 3, 7, 2**31 + 1, 2**53 + 1, 2**62, big()])
+        r2 = []
+        R.corr(f"c02 S:sdown {gs} {k}", lambda: (r2.append(GB.scaled_down_geobox(g, k)), f"{r2[0].shape[0]} {r2[0].shape[1]}")[1],
+               sig="sdown|huge")
+        if r2:
+            R.oracle(tuple(map(int, r2[0].shape)) == (-(-ny // k), -(-nx // k)), "sdown-shape", case_of("sdown", g, str(k)),
+                     f"scaled_down_geobox({(ny, nx)}, {k}) has shape {tuple(r2[0].shape)}")
+        p_ = rng.choice([1, 5, 2**31, 2**53 + 1, 2**62 + 3, -7])
+        r3 = []
+        R.corr(f"c02 S:pad {gs} {p_} N", lambda: (r3.append(g.pad(p_)), f"{r3[0].shape[0]} {r3[0].shape[1]}")[1], sig="pad|huge")
+        if r3:
+            R.oracle(tuple(map(int, r3[0].shape)) == (ny + 2 * p_, nx + 2 * p_), "pad-shape", case_of("pad", g, f"{p_} N"),
+                     f"pad({p_}) of {(ny, nx)} has shape {tuple(r3[0].shape)}")
+        a_ = rng.choice([None, rng.randint(0, 5), ny - rng.randint(0, 9), -rng.randint(1, 9), -ny + rng.randint(0, 3), big() % max(ny, 1)])
+        b_ = rng.choice([None, ny - rng.randint(0, 5), -rng.randint(1, 9), ny, big() % max(ny, 1)])
+        sl = rng.choice([slice(a_, b_), rng.choice([ny - 1, -1, -ny, 0, ny // 2, 2**53 + 1 if ny > 2**53 + 1 else 0])])
+        r4 = []
+        R.corr(f"c02 S:crop1 {gs} {enc_idx(sl)}", lambda: (r4.append(g[sl]), f"{r4[0].shape[0]} {r4[0].shape[1]}")[1], sig="crop1|huge")
+        if r4:
+            sel = norm_index_numpy(sl, ny)
+            if sel is not None:
+                R.oracle(tuple(map(int, r4[0].shape)) == (sel[1], nx), "crop1-shape", case_of("crop1", g, enc_idx(sl)),
+                         f"gbox[{sl}] of {(ny, nx)} has shape {tuple(r4[0].shape)}, numpy selects {sel[1]} rows")
+
     # ---------- GCP geoboxes: the same compute_* helpers act on the affine only
     gcp_stream(R, ops, cxE, cxF)
 
     # ---------- float stream: arbitrary doubles, oracle only
-    for _ in range(R.pick(350, 3500)):
+    for _ in range(R.pick(900, 7000)):
         g, kind = gen_gbox_float(rng, GB, Affine)
         check_base_views(cxF, g, TNI)
         for op in ALL_OPS:
             if op == "zton":
                 continue
             g2 = run_op(R, ops, cxF, op, g, False, kind)
-            if g2 is not None and rng.random() < 0.05 and min(g2.shape) > 0:
+            if g2 is not None and rng.random() < 0.05 and min(g2.shape) > 0 and max(g2.shape) <= 20000:
                 check_base_views(cxF, g2, TNI)
     # F13 class: every (N, n) of a band, shapes only
-    for N in range(1, R.pick(120, 300)):
+    for N in range(1, R.pick(130, 320)):
         g = GB.GeoBox((N, max(1, N // 2)), Affine(30.0, 0, 5e5, 0, -30.0, 6e6), "EPSG:32633")
-        for n in range(1, R.pick(120, 300), R.pick(1, 1)):
+        for n in range(1, R.pick(130, 320)):
             try:
                 got = tuple(map(int, g.zoom_to(n).shape))
             except Exception as e:  # pylint: disable=broad-except
@@ -926,7 +1031,7 @@ def gcp_stream(R: Run, ops: Ops, cxE: Ctx, cxF: Ctx):
             gen = ops.gen(op, g, rng, True)
             if gen is None:
                 continue
-            tail, _, _ = gen
+            tail, _, contract = gen
             # re-create the call on the GCP geobox from the tail tokens
             call = gcp_call(op, g, tail)
             res = []
@@ -952,6 +1057,14 @@ def gcp_stream(R: Run, ops: Ops, cxE: Ctx, cxF: Ctx):
             case = {"op": "gcp-" + op, "gbox": enc_gb(g), "args": tail}
             R.oracle(isinstance(g2, GCP.GCPGeoBox) and g2._mapping is mapping and g2.crs == g.crs,
                      "gcp-view-lost-mapping", case, "GCP view does not share the mapping / crs of its parent")
+            # the op's own contract on the (shape, affine, crs) triple, exactly as for GeoBox
+            nfail = len(R.oracle_failures)
+            try:
+                contract(cxE if dy else cxF, g, g2, tail)
+            except Exception as e:  # pylint: disable=broad-except
+                R.oracle(False, f"gcp-{op}-oracle-raised", case, f"{type(e).__name__}: {e}")
+            for f_ in R.oracle_failures[nfail:]:
+                f_["key"] = "gcp-" + f_["key"]
             # pixel contract through the (unknown) mapping: pix2wld(g2)(p) == pix2wld(g)(T p), T = A^-1 A2
             A, A2 = fa(g._affine), fa(g2._affine)
             det = A[0] * A[4] - A[1] * A[3]
